@@ -291,6 +291,15 @@ def build() -> Check:
         if mname1 == "__init__":
             continue
         locked = [w for w in ast.walk(m1.node) if isinstance(w, ast.With) and any("_operations_lock" in ast.unparse(i_.context_expr) for i_ in w.items)]
+        # locals bound to the map or to a live view of it (not a copy)
+        views = set()
+        for a1 in ast.walk(m1.node):
+            if isinstance(a1, (ast.Assign, ast.AnnAssign)) and a1.value is not None:
+                vt = ast.unparse(a1.value)
+                if vt == "self.operations" or vt in ("self.operations.items()", "self.operations.values()", "self.operations.keys()"):
+                    for t1 in ([a1.target] if isinstance(a1, ast.AnnAssign) else a1.targets):
+                        if isinstance(t1, ast.Name):
+                            views.add(t1.id)
         for n1 in ast.walk(m1.node):
             it_expr = None
             if isinstance(n1, (ast.For, ast.comprehension)):
@@ -300,7 +309,8 @@ def build() -> Check:
             if it_expr is None:
                 continue
             txt = ast.unparse(it_expr)
-            if not (txt == "self.operations" or txt.startswith("self.operations.items(") or txt.startswith("self.operations.values(") or txt.startswith("self.operations.keys(")):
+            if not (txt == "self.operations" or txt.startswith("self.operations.items(") or txt.startswith("self.operations.values(") or txt.startswith("self.operations.keys(")
+                    or (isinstance(it_expr, ast.Name) and it_expr.id in views)):
                 continue
             n_iter += 1
             inside = any(any(n1 is x for x in ast.walk(w)) for w in locked)
